@@ -167,10 +167,10 @@ func finish(rec *httptest.ResponseRecorder, err error, t *TaskCtx) *Resp {
 type App struct {
 	W *World
 	// device verification page's own table: user-code signature -> device-code signature (the application wrote both into the response)
-	userToDevice map[string]string
-	NextTask     int
-	pendingConc  *ctask // the concurrent task about to start (tasks are started one at a time)
-	FreshSessionOnApproval bool // set per device_decide step (see DeviceVerify)
+	userToDevice           map[string]string
+	NextTask               int
+	pendingConc            *ctask // the concurrent task about to start (tasks are started one at a time)
+	FreshSessionOnApproval bool   // set per device_decide step (see DeviceVerify)
 }
 
 func NewApp(w *World) *App { return &App{W: w, userToDevice: map[string]string{}} }
@@ -501,4 +501,3 @@ func (a *App) DeviceVerify(userCode string, accept bool, subject string, grant [
 	}
 	return ""
 }
-
